@@ -131,6 +131,9 @@ func (blk *BlockT) append(tree *ParserT, this fn.Property, next fn.Property) err
 		})
 
 	default:
+		if tree.charPos+1 >= len(tree.expression) {
+			tree.charPos = len(tree.expression) - 1
+		}
 		blk.Functions = append(blk.Functions, fn.FunctionT{
 			Raw:        tree.expression[:tree.charPos+1],
 			Command:    tree.statement.command,
